@@ -106,12 +106,14 @@ def shadows(ex):
     """Is the scoping hypothesis of the theorem (Refine.wf) falsified?  It demands that a
     let carries the translator's `shadows` flag exactly when its name is in the static
     scope (outer lets, parameters, EARLIER CLASS FIELDS), and that no class member re-binds
-    a name in scope.  -> None | 'let-flag-missing' | 'let-flag-spurious' | 'member-rebinds'"""
-    def go(x, sc):
+    a name in scope.
+    -> None | 'let-flag-missing' (outer let / parameter) | 'let-flag-missing-class-field'
+       | 'let-flag-spurious' | 'member-rebinds'"""
+    def go(x, sc, fields):
         if not (isinstance(x, list) and x and isinstance(x[0], str)):
             if isinstance(x, list):
                 for y in x:
-                    r = go(y, sc)
+                    r = go(y, sc, fields)
                     if r:
                         return r
             return None
@@ -119,27 +121,29 @@ def shadows(ex):
         if k == 'Let':
             if (x[1] in sc) and not x[2]:
                 return 'let-flag-missing'
-            if (x[1] not in sc) and x[2]:
+            if (x[1] in fields) and not x[2]:
+                return 'let-flag-missing-class-field'
+            if (x[1] not in sc) and (x[1] not in fields) and x[2]:
                 return 'let-flag-spurious'
-            return go(x[3], sc) or go(x[4], sc | {x[1]})
+            return go(x[3], sc, fields) or go(x[4], sc | {x[1]}, fields - {x[1]})
         if k == 'Class':
-            cur = set(sc)
+            cur = set(fields)
             for name, isf, e in x[2]:
-                r = go(e, cur)
+                r = go(e, sc, cur)
                 if r:
                     return r
                 if name != 'none':
-                    if name in cur:
+                    if name in cur or name in sc:
                         return 'member-rebinds'
                     cur = cur | {name}
             return None
         for y in x[1:]:
-            r = go(y, sc)
+            r = go(y, sc, fields)
             if r:
                 return r
         return None
     for params, body in ex['rules']:
-        r = go(body, set(params))
+        r = go(body, set(params), set())
         if r:
             return r
     return None
@@ -164,7 +168,7 @@ def jobs_for(tier, rnd):
 
 def mechanism_of(r, case, ix, ms):
     why = shadows(r['ex'])
-    if case.get('model_agrees') and why == 'let-flag-missing':
+    if case.get('model_agrees') and why == 'let-flag-missing-class-field':
         return 'class-field-rebound-by-nested-let'
     return 'scoping'
 
@@ -180,8 +184,15 @@ def run(R):
         recs = gramrun.run_grammars(jobs[i:i + 1500])
         gramrun.compare(R, recs, 'env', mechanism_of)
         for r in recs:
-            if 'ex' in r and shadows(r['ex']):
+            if 'ex' not in r:
+                continue
+            why = shadows(r['ex'])
+            R.count('shadow-flag-placement', r['desc'])
+            if why:
                 nshadow += 1
+            if why in ('let-flag-missing', 'let-flag-spurious'):
+                R.counterexample('shadow-flag-placement', 'translator-shadow-flag:' + why, {'grammar': r['desc']},
+                                 'a let is marked as shadowing exactly when its name is bound by an enclosing let or parameter', why)
     R.extra['grammars_with_shadowing'] = nshadow
     R.assumptions += ['inline Python from a closed vocabulary (int, len, bool, tuple, comparisons with bound names, n + 1)',
                       'names used are bound on every path (unbound names: the specification makes no claim)']
